@@ -84,7 +84,16 @@ func worker(c *checks.Check, tier string, seed int64, shard, n int, out string) 
 	func() {
 		defer func() {
 			if e := recover(); e != nil {
-				r.Infra("harness panic in shard %d: %v\n%s", shard, e, debug.Stack())
+				st := string(debug.Stack())
+				if site, ok := checks.LibraryPanic(st); ok {
+					// a panic raised by the library through a call the check did not
+					// guard: still the library's panic, reported as such (the shard's
+					// remaining cases are not evaluated)
+					r.Cap("shard %d stopped at a library panic", shard)
+					r.Violate(c.ID+"/library-panic/"+site, fmt.Sprintf("the library panicked: %v @ %s", e, site), "panic", map[string]string{"stack": st}, nil)
+					return
+				}
+				r.Infra("harness panic in shard %d: %v\n%s", shard, e, st)
 			}
 		}()
 		c.Run(r)
